@@ -928,6 +928,14 @@ impl Compiler {
 
             // Pop scope
             self.builder.emit(Op::PopScope);
+
+            // Entering the catch block re-registered this statement's finally block as a
+            // finally-only handler (so that break/continue/throw inside the catch body still
+            // run it). On normal completion of the catch body that handler must be removed
+            // again, otherwise it stays on the try stack and shadows enclosing handlers.
+            if try_stmt.finalizer.is_some() {
+                self.builder.emit(Op::PopTry);
+            }
         }
 
         // Jump to finally (if exists) or end
